@@ -18,7 +18,10 @@ import (
 	"time"
 )
 
-const verifRoot = "/verif"
+// verifRoot is the directory the check script lives in (/verif, or a snapshot
+// of it for background sweeps); repoRoot is the repository under test.
+var verifRoot = "/verif"
+
 const repoRoot = "/repo"
 
 type propSpec struct {
@@ -156,6 +159,20 @@ func build(engine string, race bool) string {
 	}
 	out += ".test"
 	args := []string{"test", "-c", "-tags", "verif", "-o", out}
+	if alt := os.Getenv("VERIF_REPO"); alt != "" && alt != repoRoot {
+		// background sweeps (vp run --with-repo) build against a snapshot of the
+		// repository instead of /repo itself; registered checks never set this
+		mod, err := os.ReadFile(filepath.Join(verifRoot, "sim", "go.mod"))
+		if err != nil {
+			die2("read go.mod: %v", err)
+		}
+		altMod := filepath.Join(verifRoot, ".build", "alt.mod")
+		os.WriteFile(altMod, bytes.ReplaceAll(mod, []byte("=> "+repoRoot), []byte("=> "+alt)), 0o644)
+		if sum, err := os.ReadFile(filepath.Join(alt, "go.sum")); err == nil {
+			os.WriteFile(filepath.Join(verifRoot, ".build", "alt.sum"), sum, 0o644)
+		}
+		args = append(args, "-modfile="+altMod)
+	}
 	if race {
 		args = append(args, "-race")
 	}
@@ -779,6 +796,9 @@ func replay(path string) int {
 }
 
 func main() {
+	if r := os.Getenv("VERIF_ROOT"); r != "" {
+		verifRoot = r
+	}
 	if len(os.Args) < 2 {
 		die2("usage: driver check <id> quick|thorough | replay <file> | build | selftest")
 	}
